@@ -738,6 +738,8 @@ class Condition(Obj):
         hook = getattr(ex.unit, 'on_wait', None)
         if hook is None:
             raise Unsupported(f'{self.label}.wait() without an interference specification (unit.on_wait)')
+        st = st.fork()
+        st.ghost['#wait_timeout'] = timeout
         s1 = st.fork()
         s1.ghost['#waits'] = s1.ghost.get('#waits', 0) + 1
         hook(ex, s1, self, True, node)
@@ -975,3 +977,218 @@ class ThreadCtor(Callable_):
         st = st.fork()
         t.init(st)
         return [('ok', st, t)]
+
+
+# ------------------------------------------------------------------ shared dict (ledger) and shared futures (E2)
+Absent = z3.Const('ABSENT', Val)      # marks "no entry" in a map
+
+
+class SharedMap(Obj):
+    """A dict shared between roles: abstract state = (array key -> value|ABSENT, size).  Each operation is one atomic action
+    (GIL); before every action the unit's hook `interfere(ex, st, obj, node)` applies what other roles may have done since
+    this role last looked (rely).  Writes are counted in the ghost `writes`."""
+    trusted = 'dict: len(), d[k]=v, d.pop(k), d.get(k), `in` are single atomic operations (GIL)'
+
+    def init(self, st, arr=None, size=None):
+        self.set(st, 'arr', arr if arr is not None else z3.K(Val, Absent))
+        self.set(st, 'size', size if size is not None else z3.IntVal(0))
+        return self
+
+    def havoc(self, ex, st):
+        pass        # shared state changes only through the unit's interference hook
+
+    def arr(self, st):
+        return self.get(st, 'arr')
+
+    def size(self, st):
+        return self.get(st, 'size')
+
+    def _interfere(self, ex, st, node):
+        hook = getattr(ex.unit, 'interfere', None)
+        if hook:
+            hook(ex, st, self, node)
+
+    def length(self, ex, st, node):
+        st = st.fork()
+        self._interfere(ex, st, node)
+        return [('ok', st, self.size(st))]
+
+    def setitem(self, ex, st, idx, v, node):
+        st = st.fork()
+        self._interfere(ex, st, node)
+        k = box(ex, idx)
+        a, n = self.arr(st), self.size(st)
+        bv = box(ex, v)
+        st.assume(bv != Absent)
+        self.set(st, 'size', z3.If(z3.Select(a, k) == Absent, n + 1, n))
+        self.set(st, 'arr', z3.Store(a, k, bv))
+        st.ghost['writes'] = st.ghost.get('writes', z3.IntVal(0)) + 1
+        hook = getattr(ex.unit, 'after_map_write', None)
+        if hook:
+            hook(ex, st, self, 'set', k, bv, node)
+        return [('ok', st, None)]
+
+    def m_pop(self, ex, st, args, kwargs, node):
+        st = st.fork()
+        self._interfere(ex, st, node)
+        k = box(ex, args[0])
+        a, n = self.arr(st), self.size(st)
+        outs = []
+        s1 = st.fork().assume(z3.Select(a, k) != Absent)
+        if ex.feasible(s1):
+            self.set(s1, 'arr', z3.Store(a, k, Absent))
+            self.set(s1, 'size', n - 1)
+            s1.ghost['writes'] = s1.ghost.get('writes', z3.IntVal(0)) + 1
+            hook = getattr(ex.unit, 'after_map_write', None)
+            if hook:
+                hook(ex, s1, self, 'pop', k, z3.Select(a, k), node)
+            outs.append(('ok', s1, z3.Select(a, k)))
+        s2 = st.fork().assume(z3.Select(a, k) == Absent)
+        if ex.feasible(s2):
+            if len(args) > 1:
+                outs.append(('ok', s2, args[1]))
+            else:
+                outs.append(ex.raise_new(s2, 'KeyError'))
+        return outs
+
+    def m_get(self, ex, st, args, kwargs, node):
+        st = st.fork()
+        self._interfere(ex, st, node)
+        k = box(ex, args[0])
+        v = z3.Select(self.arr(st), k)
+        default = box(ex, args[1]) if len(args) > 1 else NONE
+        return [('ok', st, z3.If(v == Absent, default, v))]
+
+    def getitem(self, ex, st, idx, node):
+        st = st.fork()
+        self._interfere(ex, st, node)
+        k = box(ex, idx)
+        v = z3.Select(self.arr(st), k)
+        outs = []
+        s1 = st.fork().assume(v != Absent)
+        if ex.feasible(s1):
+            outs.append(('ok', s1, v))
+        s2 = st.fork().assume(v == Absent)
+        if ex.feasible(s2):
+            outs.append(ex.raise_new(s2, 'KeyError'))
+        return outs
+
+    def contains(self, ex, st, item):
+        return z3.Select(self.arr(st), box(ex, item)) != Absent
+
+
+PENDING, RUNNING, CANCELLED, FINISHED = (z3.IntVal(i) for i in range(4))
+
+
+class SharedFuture(Obj):
+    """concurrent.futures.Future shared between the resolving role and a caller who may cancel() it at any time.
+    state in {PENDING, RUNNING, CANCELLED, FINISHED}; before every action of the verified role the other role may have
+    moved PENDING -> CANCELLED (cancel() succeeds only on a pending future).  set_result/set_exception on a
+    CANCELLED or FINISHED future raise InvalidStateError (CPython)."""
+    trusted = 'concurrent.futures.Future state machine: cancel() succeeds only while PENDING; set_running_or_notify_cancel() returns False on a cancelled future, else moves to RUNNING; set_result/set_exception raise InvalidStateError on a cancelled/finished future'
+    cls_name = 'Future'
+
+    def __init__(self, ex, label='fut', other_may_cancel=True):
+        super().__init__(ex, label)
+        self.other_may_cancel = other_may_cancel
+
+    def init(self, st, state=None):
+        self.set(st, 'state', state if state is not None else PENDING)
+        self.set(st, 'is_exc', z3.BoolVal(False))
+        self.set(st, 'val', NONE)
+        return self
+
+    def havoc(self, ex, st):
+        pass
+
+    def state(self, st):
+        return self.get(st, 'state')
+
+    def _interfere(self, ex, st):
+        if self.other_may_cancel:
+            c = fresh('peer_cancelled', z3.BoolSort())
+            self.set(st, 'state', z3.If(z3.And(c, self.state(st) == PENDING), CANCELLED, self.state(st)))
+
+    def m_cancelled(self, ex, st, args, kwargs, node):
+        st = st.fork()
+        self._interfere(ex, st)
+        return [('ok', st, self.state(st) == CANCELLED)]
+
+    def m_done(self, ex, st, args, kwargs, node):
+        st = st.fork()
+        self._interfere(ex, st)
+        return [('ok', st, z3.Or(self.state(st) == CANCELLED, self.state(st) == FINISHED))]
+
+    def m_set_running_or_notify_cancel(self, ex, st, args, kwargs, node):
+        st = st.fork()
+        self._interfere(ex, st)
+        outs = []
+        s1 = st.fork().assume(self.state(st) == CANCELLED)
+        if ex.feasible(s1):
+            outs.append(('ok', s1, z3.BoolVal(False)))
+        s2 = st.fork().assume(self.state(st) == PENDING)
+        if ex.feasible(s2):
+            self.set(s2, 'state', RUNNING)
+            outs.append(('ok', s2, z3.BoolVal(True)))
+        s3 = st.fork().assume(z3.Or(self.state(st) == RUNNING, self.state(st) == FINISHED))
+        if ex.feasible(s3):
+            outs.append(ex.raise_new(s3, 'RuntimeError'))
+        return outs
+
+    def _set(self, ex, st, v, is_exc, node):
+        st = st.fork()
+        self._interfere(ex, st)
+        outs = []
+        s1 = st.fork().assume(z3.Or(self.state(st) == PENDING, self.state(st) == RUNNING))
+        if ex.feasible(s1):
+            self.set(s1, 'state', FINISHED)
+            self.set(s1, 'is_exc', z3.BoolVal(is_exc))
+            self.set(s1, 'val', box(ex, v))
+            s1.ghost['resolved'] = s1.ghost.get('resolved', z3.IntVal(0)) + 1
+            outs.append(('ok', s1, NONE))
+        s2 = st.fork().assume(z3.Or(self.state(st) == CANCELLED, self.state(st) == FINISHED))
+        if ex.feasible(s2):
+            outs.append(ex.raise_new(s2, 'futures.InvalidStateError'))
+        return outs
+
+    def m_set_result(self, ex, st, args, kwargs, node):
+        return self._set(ex, st, args[0], False, node)
+
+    def m_set_exception(self, ex, st, args, kwargs, node):
+        return self._set(ex, st, args[0], True, node)
+
+    def m_cancel(self, ex, st, args, kwargs, node):
+        st = st.fork()
+        self._interfere(ex, st)
+        ok = self.state(st) == PENDING
+        self.set(st, 'state', z3.If(ok, CANCELLED, self.state(st)))
+        return [('ok', st, z3.Or(ok, self.state(st) == CANCELLED))]
+
+    def getattr(self, ex, st, name, node):
+        if name == 'data':
+            return [('ok', st, FutData())]
+        return super().getattr(ex, st, name, node)
+
+    def setattr(self, ex, st, name, v, node):
+        if name == 'data':
+            return [('ok', st.fork(), None)]
+        return super().setattr(ex, st, name, v, node)
+
+
+class FutData(Obj):
+    """fut.data: timing bookkeeping dict (no property reads it except the deadline, which the unit supplies)."""
+
+    def __init__(self):
+        self.oid = -2
+
+    def havoc(self, ex, st):
+        pass
+
+    def setitem(self, ex, st, idx, v, node):
+        return [('ok', st, None)]
+
+    def getitem(self, ex, st, idx, node):
+        hook = getattr(ex.unit, 'fut_data', None)
+        if hook:
+            return [('ok', st, hook(ex, st, idx, node))]
+        return [('ok', st, fresh('futdata', z3.RealSort()))]
